@@ -699,25 +699,26 @@ func (self Node) Gets(keys []PathNode, opts *Options) error {
 
 	need := len(keys)
 	for count := 0; it.HasNext() && count < need; {
-		for j, id := range keys {
-			if id.Path.Type() == PathStrKey {
-				exp := id.Path.str()
-				_, key, s, e := it.NextStr(UseNativeSkipForGet)
-				if it.Err != nil {
-					return errNode(meta.ErrRead, "", it.Err)
-				}
-				if key == exp {
+		// read one pair, then look for it among the requested keys
+		if self.kt == proto.STRING {
+			_, key, s, e := it.NextStr(UseNativeSkipForGet)
+			if it.Err != nil {
+				return errNode(meta.ErrRead, "", it.Err)
+			}
+			for j, id := range keys {
+				if id.Path.Type() == PathStrKey && id.Path.str() == key {
 					keys[j].Node = self.slice(s, e, et)
 					count += 1
 					break
 				}
-			} else if id.Path.Type() == PathIntKey {
-				exp := id.Path.int()
-				_, key, s, e := it.NextInt(UseNativeSkipForGet)
-				if it.Err != nil {
-					return errNode(meta.ErrRead, "", it.Err)
-				}
-				if key == exp {
+			}
+		} else {
+			_, key, s, e := it.NextInt(UseNativeSkipForGet)
+			if it.Err != nil {
+				return errNode(meta.ErrRead, "", it.Err)
+			}
+			for j, id := range keys {
+				if id.Path.Type() == PathIntKey && id.Path.int() == key {
 					keys[j].Node = self.slice(s, e, et)
 					count += 1
 					break
